@@ -92,7 +92,7 @@ func unmarshalLoopSpec(c *Ctx, ord int, loop ast.Stmt) *LoopSpec {
 		// varint decode loop: summary  i_before < i_after <= l  (decoded value abstracted for the safety engines)
 		return &LoopSpec{Unroll: 11, PostFn: func(c *Ctx, before, after *State) string {
 			find := func(st *State, name string) (Scalar, bool) {
-				_, o := c.pkg.Types.Scope().Innermost(fs.Body.Pos()).LookupParent(name, fs.Body.Pos())
+				_, o := c.pkg.Types.Scope().Innermost(fs.Body.Pos()).LookupParent(role(name), fs.Body.Pos())
 				if o == nil {
 					return Scalar{}, false
 				}
@@ -118,7 +118,7 @@ func unmarshalLoopSpec(c *Ctx, ord int, loop ast.Stmt) *LoopSpec {
 		return nil
 	}
 	look := func(st *State, name string) Scalar {
-		_, o := c.pkg.Types.Scope().Innermost(fs.Body.Pos()).LookupParent(name, fs.Body.Pos())
+		_, o := c.pkg.Types.Scope().Innermost(fs.Body.Pos()).LookupParent(role(name), fs.Body.Pos())
 		if o != nil {
 			if v, ok := st.env[o].(Scalar); ok {
 				return v
@@ -173,6 +173,7 @@ func unmarshalUnit(prog *Program, ms *MsgSchema, o unmarshalOpts) (u *Unit) {
 		}
 	}()
 	st := newState()
+	detectRoles(lit, "unmarshal")
 	xref := c.setupClosure(lit, st, ms)
 	x := PtrV{Ref: xref, Named: ms.Named}
 	c.loadStruct(st, x) // entry heap components exist before the snapshot
@@ -394,6 +395,7 @@ func fieldsMentioned(e ast.Expr) []string {
 }
 
 func envByName(st *State, name string, near token.Pos) (Val, bool) {
+	name = role(name)
 	var best Val
 	var bestPos token.Pos = -1
 	for o, v := range st.env {
